@@ -72,7 +72,6 @@ type Exec struct {
 	noFork           int
 	traceMode        bool
 	curThread        int
-	sharedObjs       map[int]bool
 	fatalIsViolation bool
 	sampleBudget     int
 	ForkSites        map[string]int
@@ -411,7 +410,11 @@ func (ex *Exec) run(st *State) {
 				return
 			}
 			ex.emitAccess(st, p, true)
-			st.store(p, ex.eval(st, ins.Val))
+			sv := ex.eval(st, ins.Val)
+			if st.traceOn && st.isShared(p.obj) {
+				ex.publish(st, sv)
+			}
+			st.store(p, sv)
 		case *ssa.Convert:
 			fr.env[ins] = ex.convert(st, ins)
 		case *ssa.ChangeType:
